@@ -50,7 +50,8 @@ def strategy_(draw, tier):
                 tone_bin=draw(st.integers(1, 3)), level=draw(st.sampled_from([0.5, 1.0, 2.0])),
                 fch1=draw(st.sampled_from([0.0, 6e9])), preseed=draw(st.sampled_from([True, True, True, False])),
                 dig_list=draw(st.booleans()), dig_fwhms=draw(st.lists(st.sampled_from([32.0, 20.0, 12.0, 48.0]), min_size=6, max_size=6)),
-                abort_first=draw(st.sampled_from([False, False, True])), abort_call=draw(st.integers(2, 4)))
+                abort_first=draw(st.sampled_from([False, False, True])), abort_call=draw(st.integers(2, 4)),
+                earlier_use=draw(st.sampled_from([False, False, True])))
 
 
 def strategy(tier):
@@ -153,6 +154,9 @@ def run_case(case, ctx):
     obs = core.Obs()
     c = case
     stem_in = ctx.path('in')
+    if c.get('earlier_use'):
+        # the input path held a different recording before, and the library's readers were used on it
+        volt.earlier_use(stem_in, dict(c, directio=(c['directio'] != 'absent' and int(c['directio']) != 0)), nfiles=2)
     blocks_in, z = make_input(c, stem_in)
     spb, obsnchan, nch = z['spb'], z['obsnchan'], c['num_chans']
     dio = c['directio'] != 'absent' and int(c['directio']) != 0
